@@ -695,6 +695,27 @@ module Sy = struct
     done with End_of_file -> ())
 end
 
+
+(* ---------------- layout domain (C10) ---------------- *)
+module Ly = struct
+  let run () =
+    let n = ref 0 in
+    (try while true do
+      let l = input_line stdin in
+      if String.length l >= 4 && String.sub l 0 4 = "====" then (print_endline l; n := 0)
+      else match split_ws l with
+      | "lay" :: cap :: rest ->
+          Printf.printf "op %d %s\n" !n l; incr n;
+          let rec pairs = function a :: b :: t -> (n_of_string a, n_of_string b) :: pairs t | _ -> [] in
+          let comps = pairs rest in
+          let cap = n_of_string cap in
+          Printf.printf "L%s | %s %s\n"
+            (String.concat "" (Stdlib.List.map (fun o -> " " ^ string_of_n o) (Layout.offsets cap comps)))
+            (string_of_n (Layout.chunk_size cap comps)) (string_of_n (Layout.chunk_align cap comps))
+      | _ -> ()
+    done with End_of_file -> ())
+end
+
 let run_lines f =
   try
     while true do
@@ -712,6 +733,7 @@ let () =
   | _ :: "mgrspec" :: _ -> MgS.run ()
   | _ :: "worlds" :: _ -> Wd.run ()
   | _ :: "systems" :: _ -> Sy.run ()
+  | _ :: "layout" :: _ -> Ly.run ()
   | _ :: "events" :: _ -> Ed.run false
   | _ :: "eventspec" :: _ -> Ed.run true
   | _ -> prerr_endline "usage: runner <domain>"; exit 2
